@@ -1,4 +1,4 @@
-(* C14 requests: 1400..1410. *)
+(* C14 requests: 1400..1412. *)
 From Coq Require Import List ZArith Bool.
 From PV Require Import lib.Sx lib.Str lib.Result.
 From PV Require Import model.Langs spec.SpecLangs extract.OrCommon.
@@ -22,6 +22,25 @@ Definition sx_divs (x : sx) : option (list (option str * list (Z * str))) :=
                       | _ => None end) x.
 Definition of_doc (d : dfxp_doc) : sx :=
   SL [of_opt SS (d_tt d); of_list (fun dv => SL [of_opt SS (fst dv); of_list of_cue (snd dv)]) (d_divs d)].
+
+(* a body tree: SL [SI 0; cue] is a <p>, SL [SI 1; lang option; SL kids] a <div> *)
+Fixpoint sx_dnode (x : sx) : option dnode :=
+  match x with
+  | SL [SI 0; c] => match sx_cue c with Some c => Some (DP c) | None => None end
+  | SL [SI 1; l; SL kids] =>
+      match sx_ostr l,
+            (fix go (ks : list sx) : option (list dnode) :=
+               match ks with
+               | [] => Some []
+               | k :: t => match sx_dnode k, go t with Some n, Some r => Some (n :: r) | _, _ => None end
+               end) kids with
+      | Some l, Some kids => Some (DDiv l kids)
+      | _, _ => None
+      end
+  | _ => None
+  end.
+Definition of_divs (dv : list (option str * list (Z * str))) : sx :=
+  of_list (fun dv => SL [of_opt SS (fst dv); of_list of_cue (snd dv)]) dv.
 
 Definition sx_attrs := sx_listof (fun y => match y with SL [SS a; SS v] => Some (a, v) | _ => None end).
 Definition sx_styles : sx -> option sami_styles :=
@@ -60,7 +79,7 @@ Definition dispatch (code : Z) (arg : sx) : option sx :=
                   | SL [SS default; dl; divs; obs] =>
                       match sx_ostr dl, sx_divs divs, sx_capset obs with
                       | Some dl, Some divs, Some obs =>
-                          SL [of_bool (dom_dfxp_read default dl divs); of_bool (ok_dfxp_read default dl divs obs)]
+                          SL [of_bool true; of_bool (ok_dfxp_read default dl divs obs)]
                       | _, _, _ => bad end
                   | _ => bad end)
   | 1402 => Some (match arg with
@@ -83,17 +102,18 @@ Definition dispatch (code : Z) (arg : sx) : option sx :=
                           SL [of_capset (sami_read default st ps);
                               of_list (fun p => SL [SS (p_lang default (sp_attrs p) st);
                                                     of_cue (sp_start p * 1000, sp_text p);
-                                                    of_bool (is_blank_text (sp_text p))]) ps;
-                              of_capset (sami_read_prefix default st ps)]
+                                                    of_bool (is_blank_text (sp_text p))]) ps]
                       | _, _ => bad end
                   | _ => bad end)
   | 1406 => Some (match arg with
                   | SL [tagged; obs] =>
                       match sx_listof (fun y => match y with
-                                                | SL [SS l; c] => match sx_cue c with Some c => Some (l, c) | None => None end
+                                                | SL [SS l; c; b] => match sx_cue c, sx_bool b with
+                                                                     | Some c, Some b => Some (l, c, b) | _, _ => None end
                                                 | _ => None end) tagged, sx_capset obs with
                       | Some tagged, Some obs => of_bool (ok_sami_read tagged obs)
-                      | _, _ => bad end
+                      | _, _ => bad
+                      end
                   | _ => bad end)
   | 1407 => Some (match sx_wset arg with Some cs => of_body (sami_write cs) | None => bad end)
   | 1408 => Some (match arg with
@@ -107,6 +127,22 @@ Definition dispatch (code : Z) (arg : sx) : option sx :=
   | 1410 => Some (match arg with
                   | SL [l; cs; obs] => match sx_ostr l, sx_capset cs, sx_listof sx_cue obs with
                                        | Some l, Some cs, Some obs => of_bool (ok_pick l cs obs) | _, _, _ => bad end
+                  | _ => bad end)
+  | 1411 => Some (match arg with          (* [lang; class opt; styles; langs] -> [p_class; sheet; resolved] *)
+                  | SL [SS lang; c; st; ls] =>
+                      match sx_ostr c, sx_styles st, sx_listof sx_str ls with
+                      | Some c, Some st, Some ls =>
+                          let pc := p_class lang c st in
+                          let sh := sheet_langs st ls in
+                          SL [SS pc; of_list (fun kv => SL [SS (fst kv); SS (snd kv)]) sh; of_opt SS (resolve_class pc sh)]
+                      | _, _, _ => bad end
+                  | _ => bad end)
+  | 1412 => Some (match arg with          (* [default; tt; body tree] -> [capset read; segments] *)
+                  | SL [SS default; dl; tree] =>
+                      match sx_ostr dl, sx_listof sx_dnode tree with
+                      | Some dl, Some nodes =>
+                          SL [of_capset (dfxp_read_tree default dl nodes); of_divs (flatten_body nodes)]
+                      | _, _ => bad end
                   | _ => bad end)
   | _ => None
   end.
